@@ -565,7 +565,14 @@ func c17(x *Ctx) {
 		for _, w := range eng.FieldWrites([]*ssa.Function{lp}, hashesF) {
 			hs = w.Instr.(*ssa.Store)
 		}
-		lk := eng.FieldIs("sharder", "DeterministicSharder", "peerLock")
+		// the sharder's mutex, whatever it is called
+		lk := func(fr eng.FieldRef) bool {
+			if fr.Struct == nil || fr.Struct.Obj().Name() != "DeterministicSharder" || fr.Var == nil {
+				return false
+			}
+			t := fr.Var.Type().String()
+			return t == "sync.RWMutex" || t == "sync.Mutex"
+		}
 		okTogether := ps != nil && hs != nil && ps.Block() == hs.Block() && wlockedAt(ps, lk) && wlockedAt(hs, lk)
 		c.Decide(okTogether, "C17.atomic-replace", "loadPeerList/peers+hashes", x.PosOf(lp.Pos()), "peers and hashes replaced together under the write lock", "peers and hashes are not replaced together under the write lock: WhichShard can index a new hash list into an old peer list")
 	}
